@@ -1,5 +1,6 @@
 import CloakModel.Model.Dispatch
 import CloakModel.Lemmas.AuthWindow
+import CloakModel.Gen.AuthDH
 
 /-! # C07 — Only holders of valid, timely credentials are ever treated as Cloak clients
 
@@ -388,3 +389,11 @@ end C07
 #print axioms C07.c07_else_web
 #print axioms C07.c07_admin_gate
 #print axioms C07.c07_window_exact
+
+/-- **the key agreement refuses degenerate peer values** (regenerated facts): `ecdh.GenerateSharedSecret` returns what
+`curve25519.X25519` returns, error included, and both transports stop on that error before using the secret.  The
+model's `Crypto.dh` is partial for exactly this reason (`HS.Lawful` speaks about successful agreements only); with
+`ScalarMult` (no error) a small-order point yields the all-zero secret for every private key, and a payload sealed to
+it by anybody would be accepted. -/
+theorem C07.gen_dh : Gen.AuthDH.dhReturnsX25519WithError = true ∧ Gen.AuthDH.tlsStopsOnDHError = true ∧
+    Gen.AuthDH.wsStopsOnDHError = true := by decide
